@@ -152,9 +152,9 @@ Section Text.
   Definition split_sign (t : str) : bool * str :=
     match t with 45%N :: r => (true, r) | 43%N :: r => (false, r) | _ => (false, t) end.
 
-  (* float(s) reads this; `special` lists the accepted spellings of infinities / nan (lower case) *)
-  Definition read_number (special_inf special_nan : list str) (s : str) : option numtext :=
-    let '(neg, r) := split_sign (strip s) in
+  (* the text after surrounding whitespace has been removed; `special` lists the accepted spellings of infinities / nan (lower case) *)
+  Definition read_number (special_inf special_nan : list str) (t : str) : option numtext :=
+    let '(neg, r) := split_sign t in
     if mem (lower_ascii r) special_inf then Some (NInf neg)
     else if mem (lower_ascii r) special_nan then Some NNan
     else match read_unsigned r with
@@ -162,11 +162,13 @@ Section Text.
          | None => None
          end.
 
-  Definition float_text := read_number [[105;110;102]; [105;110;102;105;110;105;116;121]]%N [[110;97;110]]%N.
-  (* Decimal(s): underscores are dropped wherever they are; Inf / Infinity / NaN / sNaN *)
+  (* float(s) *)
+  Definition float_text (s : str) : option numtext :=
+    read_number [[105;110;102]; [105;110;102;105;110;105;116;121]]%N [[110;97;110]]%N (strip s).
+  (* Decimal(s): surrounding whitespace is removed first, then underscores are dropped wherever they are; Inf / Infinity / NaN / sNaN *)
   Definition dec_text (s : str) : option numtext :=
     read_number [[105;110;102]; [105;110;102;105;110;105;116;121]]%N [[110;97;110]; [115;110;97;110]]%N
-                (filter (fun c => negb (N.eqb c 95)) s).
+                (filter (fun c => negb (N.eqb c 95)) (strip s)).
 End Text.
 
 (* ------------------------------------------------------------------ binary64 *)
